@@ -524,6 +524,12 @@ class Engine:
                     n, _ = f.tokens(pl["ty"])
                     if n:
                         emit(st, "MAKE", bb, s["span"], vec(own=n), {"n": n, "ty": f.ts(pl["ty"]), "via": "bitwise copy of a place"})
+            # borrow of the payload (DATA field of INNER) - recorded for ordering rules (C03, C08)
+            if record and k in ("ref", "rawptr") and rv["place"]["p"]:
+                for pe in rv["place"]["p"]:
+                    if isinstance(pe, dict) and pe.get("adt") == f.inner_path and f.data_field and pe.get("f") == f.data_field[0]:
+                        emit(st, "DATAREF", bb, s["span"], ZERO, {"mut": rv["mut"], "raw": k == "rawptr", "place": place_str(rv["place"])})
+                        break
             # retarget: assignment through a handle's pointer field
             if lhs["p"]:
                 last = lhs["p"][-1]
@@ -602,7 +608,7 @@ class Engine:
                     pl = t["place"]
                     tag = st["tags"].get(pl["l"]) if not pl["p"] else None
                     effs = self.drop_effects(t["ty"], tag)
-                    self._apply(effs, "DROP", {"ty": f.ts(t["ty"]), "place": place_str(pl)}, t, bb, st, fork, emit, nexts, None)
+                    self._apply(effs, "DROP", {"ty": f.ts(t["ty"]), "ty_idx": t["ty"], "adt": f.ty(t["ty"]).get("path"), "place": place_str(pl)}, t, bb, st, fork, emit, nexts, None)
                 elif k == "call":
                     self._call(body, t, bb, st, fork, emit, nexts)
                 else:
